@@ -3,6 +3,7 @@
 // case lines:
 //   BLD <id> <four> <addpath> <fam> <ap 0|1> <mode M|I|S|K> <ops>
 //        ops = ';'-separated, in order:  T:<hex of attribute TLVs>  A:<nlri hex>  W:<nlri hex>  N:<kind>:<hex>
+//              AI:<hex,hex,..|->  WI:<..>  WV:<..>  announcements_from_iter / withdrawals_from_iter / append_withdrawals
 //        mode M = into_messages, I = into_pdu_iter (capped), S = into_message, K = one take_message
 //   REB <id> <four> <addpath> <fam> <ap 0|1> <update hex>
 //        re-encode a received UPDATE: directly, through PaMap, through a builder seeded from the message
@@ -83,6 +84,22 @@ where
                     assert_eq!(p.remaining(), 0);
                     if k == "A" { b.add_announcement(n).unwrap(); } else { b.add_withdrawal(n).unwrap(); }
                     n_items += 1;
+                }
+                "AI" | "WI" | "WV" => {
+                    // the bulk entry points, with any number of items (none included)
+                    let mut v = vec![];
+                    for h in rest.split(',').filter(|h| !h.is_empty() && *h != "-") {
+                        let buf = leak(unhex(h));
+                        let mut p = Parser::from_ref(buf);
+                        v.push(T::parse(&mut p).unwrap());
+                        assert_eq!(p.remaining(), 0);
+                        n_items += 1;
+                    }
+                    match k {
+                        "AI" => b.announcements_from_iter(v).unwrap(),
+                        "WI" => b.withdrawals_from_iter(v).unwrap(),
+                        _ => b.append_withdrawals(v).unwrap(),
+                    }
                 }
                 "N" => {
                     let (kind, h) = rest.split_once(':').unwrap();
